@@ -5,9 +5,9 @@ cd "$(dirname "$0")/.."
 export GOFLAGS=-mod=mod GOPROXY=off GOSUMDB=off GOTOOLCHAIN=local CGO_ENABLED=0
 mkdir -p build evidence replays coq/cases
 cp /repo/go.sum harness/go.sum 2>/dev/null || true
-(cd harness && go build -tags verif -o ../build/znh .)
+(cd harness && for d in cmd/*/; do n=$(basename $d); go build -tags verif -o ../build/znh_$n ./cmd/$n; done)
 if [ -x tools/gen.sh ]; then tools/gen.sh; fi
+python3 -c "import sys; sys.path.insert(0,'tools'); from vlib import core; core.coq_makefile()"
 cd coq
-coq_makefile -f _CoqProject -o Makefile >/dev/null 2>&1
 timeout 3000 make -j16 > ../build/setup_make.log 2>&1 || { tail -40 ../build/setup_make.log; exit 1; }
 echo "setup ok"
